@@ -127,7 +127,7 @@ func run(r *enumx.Run, replay *enumx.ReplayCase) {
 		r.Violation("machinery/unknown-scenario", c.Scenario, nil)
 		return
 	}
-	r.Rule("complete product, no sampling: every exported function of crypto, crypto/aeskw, crypto/padding, crypto/aescbcaead that takes []byte x every algorithm it supports (+ an unsupported constant and a junk name) x its success path and each failure path (wrong key size, wrong nonce size, wrong tag size, failed authentication of tag / ciphertext, invalid padding, invalid plaintext / ciphertext length, unknown algorithm, wrong key kind, message too long, wrong label, bad signature ...) x lengths 0,1,15,16,17,31,32,33 (thorough: every length 0..34 and 47,48,49,63,64,65; key wrap 16,24,32,40) x spare-capacity layouts: every argument at once with spare 0,1,15,16,17,64 and each argument alone with spare 1,15,16,17,64 (AEAD dst also 160), and every ordered pair of input arguments contiguous in memory (b directly behind a, so that cap(a) extends over b; 0 and 16 bytes of spare behind b) x dst in {nil, empty, 4-byte prefix, input[:0]}. Every byte-slice argument, including the octets behind the jwk.Key, lies in one canary-filled arena; a case is a (scenario, layout) pair, distinct by construction, and non-trivial when some argument has spare capacity or is a destination. Length dimension: signatures, RSA ciphertexts, digests, keys, nonces and tags also at 0, 1, size-8..size-1, size+1, size+8 (cut at the end, cut at the front, zero-extended; a valid RSA signature / ciphertext with its leading zero byte stripped, found by deterministic search). Sequences: the buffers returned by the last 8 calls (whole capacity) are compared after every later call; every batch of 16 scenarios ends with two garbage collections (finalizers drained) and a re-verification of all its input arenas; all ordered pairs over an alphabet of 51 calls (function x implementation family) are run as A;B and with each slice A returns handed to B as each of B's input arguments (each such call is one more case).")
+	r.Rule("complete product, no sampling: every exported function of crypto, crypto/aeskw, crypto/padding, crypto/aescbcaead that takes []byte x every algorithm it supports (+ an unsupported constant and a junk name) x its success path and each failure path (wrong key size, wrong nonce size, wrong tag size, failed authentication of tag / ciphertext, invalid padding, invalid plaintext / ciphertext length, unknown algorithm, wrong key kind, message too long, wrong label, bad signature ...) x lengths 0,1,15,16,17,31,32,33 (thorough: every length 0..34 and 47,48,49,63,64,65; key wrap 16,24,32,40) x spare-capacity layouts: every argument at once with spare 0,1,15,16,17,64 and each argument alone with spare 1,15,16,17,64 (AEAD dst also 160), and every ordered pair of input arguments contiguous in memory (b directly behind a, so that cap(a) extends over b; 0 and 16 bytes of spare behind b) x dst in {nil, empty, 4-byte prefix, input[:0]}. Every byte-slice argument, including the octets behind the jwk.Key, lies in one canary-filled arena; a case is a (scenario, layout) pair, distinct by construction, and non-trivial when some argument has spare capacity or is a destination. Length dimension: signatures, RSA ciphertexts, digests, keys, nonces and tags also at 0, 1, size-8..size-1, size+1, size+8 (cut at the end, cut at the front, zero-extended; a valid RSA signature / ciphertext with its leading zero byte stripped, found by deterministic search). Read-only pages: every scenario once more x spare {0,16,64} x {capacity ends at a page end, argument starts at a page start} with each input argument in mmap-ed pages of its own that are PROT_READ during the call (SetPanicOnFault; a fault names the argument): any write, also a temporary one that is undone or one of identical bytes, is a finding. Sequences: the buffers returned by the last 8 calls (whole capacity) are compared after every later call; every batch of 16 scenarios ends with two garbage collections (finalizers drained) and a re-verification of all its input arenas; all ordered pairs over an alphabet of 51 calls (function x implementation family) are run as A;B and with each slice A returns handed to B as each of B's input arguments (each such call is one more case).")
 	r.Assume("Go slices give no way to write outside [0, cap): canaries cover len..cap of every argument, 32 guard bytes between arguments, and the arguments themselves")
 	r.Assume("aliasing is judged on the []byte values a call returns (whole capacity) against each argument's [0, cap); a returned jwk.Key or cipher.AEAD that keeps a reference to key material is outside the property (it is about writes)")
 	r.Assume("memory a call returns belongs to the caller: a later call that writes to it is charged to the call that returned it (key <earlier site>/returned-buffer-written-by-later-call); sync.Pool reuse is only observable on the same P without an intervening double GC, hence the single-threaded pair phase")
